@@ -341,7 +341,7 @@ static void run(int i, int end) {
     }
     else if (seq(op, "ls")) do_ls(a1);
     else if (seq(op, "mods")) do_mods(a1);
-    else if (seq(op, "statfs")) { u64 b[16] = {0}; i64 r = sc(SYS_statfs, (i64)a1, (i64)b, 0, 0, 0, 0); os("statfs "); os(a1); oc(' '); oi(r); oc(' '); ox(b[0]); oc(' '); ox(b[11]); nl(); }
+    else if (seq(op, "statfs")) { u64 b[16] = {0}; i64 r = sc(SYS_statfs, (i64)a1, (i64)b, 0, 0, 0, 0); os("statfs "); os(a1); oc(' '); oi(r); oc(' '); ox(b[0]); oc(' '); ox(b[10]); nl(); }
     else if (seq(op, "cat")) {
       i64 fd = sc(SYS_open, (i64)a1, 0, 0, 0, 0, 0); os("cat "); os(a1); oc(' ');
       if (fd < 0) { oi(fd); nl(); } else { i64 r = sc(SYS_read, fd, (i64)scratch, 256, 0, 0, 0); oi(r); nl(); sc(SYS_close, fd, 0, 0, 0, 0, 0); }
